@@ -43,8 +43,11 @@
     (`pipeline_ndl_empty_raises`), hence the hypothesis `hne` (the filter leaves
     an event) in every statement with `ndl.ndl`; chunking arguments `hcfg : CfgOK`
     (`2 ≤ events_per_temporary_file < 2³²`, `1 ≤ n_outcomes_per_job`, OpenMP:
-    `n_outcomes + n_outcomes_per_job < 2³²`; outside the call raises, C01
-    `ndl_chunk_args_raise`); trained from scratch (`weights=None`;
+    `n_outcomes_per_job < 2³²` and no wrap-around of the part bounds; outside the
+    first three the call raises, C01 `ndl_chunk_args_raise`); the hypothesis
+    `FileEvents` of the C01 statements (every event has ≥ 1 cue and ≥ 1 outcome)
+    is PROVED for the events behind the filter (`filtered_events_file`, a
+    conjunct of `pipeline_ndl`), not assumed; trained from scratch (`weights=None`;
     continuing from given weights is C03 alone), constant `α` (hence
     `pipeline_ndl_dict_agree` / `pipeline_all` are for constant `α`; the
     `dict_ndl` statements allow a cue-dependent `α`), within the 32-bit limits
@@ -59,7 +62,9 @@
     depend on the label order nor on the order of cues/outcomes inside an
     event — `create_event_file(remove_duplicates=True)` and
     `write_events(remove_duplicates=True)` write in `set` order — is
-    `pipeline_order_irrelevant` below and C01 `ndl_label_order_irrelevant`; the
+    `pipeline_ndl_order_irrelevant` below (composed: created file in any token
+    order → filter → reader → `ndl.ndl` with any label / id order), on the
+    specification alone `pipeline_order_irrelevant`; the
     list equalities `out`, `parsed` are for the model's first-occurrence order).  The two
     representations of `str` (`List Char` in the text model, `String` in the
     `ndl.ndl` / activation models) are related by `String.ofList` (a bijection).
@@ -88,6 +93,7 @@ import PyndlProofs.Dict
 import PyndlProofs.Activation
 import PyndlProofs.Pipeline
 import PyndlProofs.Pipeline2
+import PyndlProofs.Pipeline3
 import PyndlModel.Generated
 
 namespace Pyndl.C15
@@ -427,7 +433,8 @@ example :
 /-- **(B) writer → filter → reader → `ndl.ndl`.**  Under the hypotheses of
     `writer_filter_reader_learner` (`hp` for `cfg.policy`) and those of C01
     `ndl_call_eq_spec` (`hcfg : CfgOK`: `2 ≤ events_per_temporary_file < 2³²`,
-    `1 ≤ n_outcomes_per_job`, OpenMP `n_outcomes + n_outcomes_per_job < 2³²`;
+    `1 ≤ n_outcomes_per_job`, OpenMP `n_outcomes_per_job < 2³²` and no wrap-around
+    of the part bounds;
     `hfit`: the 32-bit limits of the chunk format — outside them the real
     function raises; `hne`: the filter leaves at least one event — otherwise
     the real `ndl.ndl` raises `IOError`, see `pipeline_ndl_empty_raises`), with the magic number / version
@@ -437,7 +444,10 @@ example :
     of parsed events, and the labelled matrix is at EVERY pair of names the
     Rescorla–Wagner specification on the policy-processed filtered events
     (for `String` names on `es'.map toS`; through `String.ofList` for the
-    `List Char` names on `es'` itself — the right-hand side of `pipeline`). -/
+    `List Char` names on `es'` itself — the right-hand side of `pipeline`).
+    Last conjunct: the events handed to `ndl.ndl` are `FileEvents` — the
+    hypothesis `hfile` of C01 `ndl_call_eq_spec` / `ndl_call_labels` is a
+    consequence of the filter and reader models here. -/
 theorem pipeline_ndl {R : Type} [CommRing R]
     (cfg : NdlCfg) (alpha β₁ β₂ lam : R)
     (ca oa : Filter.SideArgs Char) (rc ro : Filter.Rule Char)
@@ -460,16 +470,30 @@ theorem pipeline_ndl {R : Type} [CommRing R]
       (∀ o c : String, w.get o c
           = rwLearn (fun _ => alpha) β₁ β₂ lam (fun _ _ => (0 : R)) (es'.map Pipeline.toS) o c) ∧
       (∀ o c : Str, w.get (String.ofList o) (String.ofList c)
-          = rwLearn (fun _ => alpha) β₁ β₂ lam (wdAbs ([] : WDict Str Str R)) es' o c) :=
-  Pipeline.pipeline_ndl Generated.pyMagic Generated.pyVersion (by decide) (by decide) cfg
-    alpha β₁ β₂ lam ca oa rc ro hc ho hrc hro hnil chunk hn es es' h hp hfit hcfg hne
+          = rwLearn (fun _ => alpha) β₁ β₂ lam (wdAbs ([] : WDict Str Str R)) es' o c) ∧
+      FileEvents (parsed.map Pipeline.toS) := by
+  obtain ⟨out, parsed, w, h1, h2, h3, h4, h5, h6⟩ :=
+    Pipeline.pipeline_ndl Generated.pyMagic Generated.pyVersion (by decide) (by decide) cfg
+      alpha β₁ β₂ lam ca oa rc ro hc ho hrc hro hnil chunk hn es es' h hp hfit hcfg hne
+  exact ⟨out, parsed, w, h1, h2, h3, h4, h5, h6, by rw [h3]; exact Pipeline.filtered_fileEvents rc ro es⟩
+
+/-- **the events behind the filter are what an event file can hold** (`FileEvents`:
+    ≥ 1 cue — the filter drops an event left without cues — and ≥ 1 outcome — an
+    empty outcome field reads back as the outcome `""`), for every rule pair and
+    every event list.  This discharges the hypothesis `hfile` of the C01
+    statements about `ndl.ndl` for the pipeline. -/
+theorem filtered_events_file (rc ro : Filter.Rule Char) (es : List TEvent) :
+    FileEvents (((es.filterMap (Pipeline.filterEvent rc ro)).map normalise).map Pipeline.toS) :=
+  Pipeline.filtered_fileEvents rc ro es
 
 /-- **(B, error direction) the filter removes EVERY event ⇒ `ndl.ndl` raises
     `IOError`** (OpenMP; legal chunk arguments): the filtered file has only its
     header line, no chunk file is written, the kernel entry point reports its
     initial error code.  `dict_ndl` returns the empty dict there, and
     `method='threading'` the empty matrix (`ndlCall_empty_threading`) — so the
-    hypothesis `hne` of `pipeline_ndl` / `pipeline_all` cannot be dropped. -/
+    hypothesis `hne` of `pipeline_ndl` / `pipeline_all` cannot be dropped.
+    (One of three wrappers of `ndlCall_nil_raises`: C01 `ndl_call_empty_openmp`,
+    C03 `ndl_call_empty_part_raises`.) -/
 theorem pipeline_ndl_empty_raises {R : Type} [CommRing R]
     (cfg : NdlCfg) (hm : cfg.method = .openmp) (hper : 2 ≤ cfg.perFile) (hperU : cfg.perFile < 4294967296)
     (hjob : cfg.perJob < 4294967296) (alpha β₁ β₂ lam : R)
@@ -488,12 +512,47 @@ theorem pipeline_ndl_empty_raises {R : Type} [CommRing R]
     the cues and of the outcomes gives the same Rescorla–Wagner weights, from
     any initial weights (lifts C01 `dedup_perm_invariant` to sequences).  The
     list-valued conclusions (`out`, `parsed`, label order) are for the models'
-    order only. -/
+    order only.  This is the statement on the SPECIFICATION; composed with the
+    filter, the reader and the `ndl.ndl` model: `pipeline_ndl_order_irrelevant`. -/
 theorem pipeline_order_irrelevant {R : Type} [CommRing R] {ι κ : Type} [DecidableEq ι] [DecidableEq κ]
     (α : ι → R) (β₁ β₂ lam : R) (W : κ → ι → R) (es₀ es : List (Event ι κ))
     (h : List.Forall₂ (fun a b => List.Perm a.cues b.cues ∧ List.Perm a.outcomes b.outcomes) es₀ es) :
     rwLearn α β₁ β₂ lam W es₀ = rwLearn α β₁ β₂ lam W es :=
   rwLearn_perm_events α β₁ β₂ lam W es₀ es h
+
+/-- **(B, order) token order of the created file, label order and id order are
+    irrelevant for `ndl.ndl` behind the pipeline.**  `es`: the created events as
+    the creation model writes them (first occurrences); `esReal`: ANY event list
+    that agrees with `es` event by event up to the order of the cues and of the
+    outcomes (`EventsPerm` — what `create_event_file(remove_duplicates=True)`
+    really writes: `"_".join(set(cues))`); `cues`, `outs`: any permutations of
+    the names (the merged `Counter` order of any `n_jobs`); `reorder`: any order
+    of the ids inside the binary events (`write_events` over `set(ids)`).
+    Hypotheses `hp`, `hfit`, `hcfg` as in `pipeline_ndl`, on the MODEL's list.
+    Then `ndl.ndl` generalised over these orders (`ndlModelWith`, C01
+    `ndl_label_order_irrelevant`), on the events the filter and the reader make
+    of the REAL file, succeeds, reports their number, is labelled as given, gets
+    `FileEvents`, and its weight at every pair of names is the right-hand side
+    of `pipeline_ndl`.  (`Pipeline.pipeS rc ro es` is
+    `((es.filterMap (filterEvent rc ro)).map normalise).map toS`.) -/
+theorem pipeline_ndl_order_irrelevant {R : Type} [CommRing R]
+    (reorder : Event Nat Nat → Event Nat Nat)
+    (hre : ∀ e, List.Perm (reorder e).cues e.cues ∧ List.Perm (reorder e).outcomes e.outcomes)
+    (cfg : NdlCfg) (alpha β₁ β₂ lam : R) (rc ro : Filter.Rule Char)
+    (es es' esReal : List TEvent) (hreal : EventsPerm es esReal)
+    (hp : applyPolicyAll cfg.policy ((es.filterMap (Pipeline.filterEvent rc ro)).map normalise) = some es')
+    (hfit : Fits32 (Pipeline.pipeS rc ro es)) (hcfg : CfgOK cfg (countNames (Pipeline.pipeS rc ro es)).2.length)
+    (cues outs : List String) (hpc : List.Perm cues (countNames (Pipeline.pipeS rc ro es)).1)
+    (hpo : List.Perm outs (countNames (Pipeline.pipeS rc ro es)).2) :
+    ∃ w, ndlModelWith reorder Generated.pyMagic Generated.pyVersion cfg alpha β₁ β₂ lam cues outs
+          (Pipeline.pipeS rc ro esReal) = .ok (w, (Pipeline.pipeS rc ro esReal).length) ∧
+      w.cues = cues ∧ w.outcomes = outs ∧ FileEvents (Pipeline.pipeS rc ro esReal) ∧
+      (∀ o c : String, w.get o c
+          = rwLearn (fun _ => alpha) β₁ β₂ lam (fun _ _ => (0 : R)) (es'.map Pipeline.toS) o c) ∧
+      (∀ o c : Str, w.get (String.ofList o) (String.ofList c)
+          = rwLearn (fun _ => alpha) β₁ β₂ lam (wdAbs ([] : WDict Str Str R)) es' o c) :=
+  Pipeline.pipeline_ndl_order_irrelevant reorder hre Generated.pyMagic Generated.pyVersion (by decide) (by decide)
+    cfg alpha β₁ β₂ lam rc ro es es' esReal hreal hp hfit hcfg cues outs hpc hpo
 
 /-- **(B′) `ndl.ndl` = `dict_ndl` behind the filter.**  On the events parsed
     from the same filtered file both learners succeed and the labelled matrix
@@ -547,10 +606,86 @@ example :
       = some (10, 10, 0) :=
   ⟨by decide +kernel, by decide +kernel, by decide +kernel⟩
 
-/-- … and the 32-bit limits for these events. -/
-example :
+/-- (definitional — example data, not a property theorem) … and the 32-bit limits for these events. -/
+theorem exampleParsed_fits :
     Fits32 (exampleParsed.map Pipeline.toS) :=
   ⟨by decide +kernel, by decide +kernel, by decide +kernel, by decide +kernel⟩
+
+/-- the written events of the example after `pipeline` -/
+def exampleCreated : List TEvent :=
+  [⟨["#a".toList, "a#".toList], ["a".toList]⟩, ⟨["#b".toList, "b#".toList], ["b".toList]⟩]
+
+/-- (definitional — example data, not a property theorem) -/
+theorem exampleCreated_wf : ∀ e ∈ exampleCreated, C07.WfEvent e := by
+  intro e he
+  simp only [exampleCreated, List.mem_cons, List.not_mem_nil, or_false] at he
+  rcases he with rfl | rfl <;>
+    exact ⟨by decide, by unfold C07.WfTok; decide +kernel, by unfold C07.WfTok; decide +kernel⟩
+
+/-- (definitional — example data, not a property theorem) -/
+theorem exampleCreated_parsed :
+    (exampleCreated.filterMap (Pipeline.filterEvent (.keep ["#a".toList, "a#".toList, "b#".toList])
+      (.remove ["b".toList]))).map normalise = exampleParsed := by decide +kernel
+
+/-- `pipeline_ndl` ITSELF applied (threading, one outcome per job, two events per
+    temporary file, filter chunk size 2): every hypothesis instantiated; the
+    projection shows the call, the weights clause and the `FileEvents` clause -/
+example :
+    ∃ w : LW ℤ, ndlCall Generated.pyMagic Generated.pyVersion ⟨.error, .threading, 1, 2⟩ (1 : ℤ) 2 3 5 none
+        (exampleParsed.map Pipeline.toS) = .ok (w, 2) ∧
+      (∀ o c : String, w.get o c
+        = rwLearn (fun _ => (1 : ℤ)) 2 3 5 (fun _ _ => (0 : ℤ)) (exampleParsed.map Pipeline.toS) o c) ∧
+      FileEvents (exampleParsed.map Pipeline.toS) := by
+  obtain ⟨out, parsed, w, _, _, hpar, hw, hget, _, hf⟩ :=
+    pipeline_ndl (R := ℤ) ⟨.error, .threading, 1, 2⟩ 1 2 3 5
+      ⟨some ["#a".toList, "a#".toList, "b#".toList], none, none⟩ ⟨none, some ["b".toList], none⟩
+      (.keep ["#a".toList, "a#".toList, "b#".toList]) (.remove ["b".toList]) rfl rfl trivial trivial trivial
+      2 (by decide) exampleCreated exampleParsed exampleCreated_wf
+      (by rw [exampleCreated_parsed]; decide +kernel)
+      (by rw [exampleCreated_parsed]; exact exampleParsed_fits)
+      (by rw [exampleCreated_parsed]; decide +kernel) (by decide +kernel)
+  rw [exampleCreated_parsed] at hpar
+  subst hpar
+  exact ⟨w, hw, hget, hf⟩
+
+/-- `pipeline_order_irrelevant` applied: the two cues of the first created event
+    swapped, the specification does not move (and is not trivial) -/
+example :
+    rwLearn (fun _ => (1 : ℤ)) 2 3 5 (fun _ _ => 0) exampleParsed
+      = rwLearn (fun _ => (1 : ℤ)) 2 3 5 (fun _ _ => 0)
+          [⟨["a#".toList, "#a".toList], ["a".toList]⟩, ⟨["b#".toList], [[]]⟩] ∧
+    rwLearn (fun _ => (1 : ℤ)) 2 3 5 (fun _ _ => 0) exampleParsed "a".toList "a#".toList = 10 :=
+  ⟨pipeline_order_irrelevant _ 2 3 5 _ _ _
+      (List.Forall₂.cons ⟨by decide, by decide⟩ (List.Forall₂.cons ⟨by decide, by decide⟩ List.Forall₂.nil)),
+    by decide +kernel⟩
+
+/-- `pipeline_ndl_order_irrelevant` ITSELF applied: the REAL created file has the
+    cues of both events in the other order (`a#_#a`, `b#_#b`), the counting stage
+    lists the labels in reversed order, the binary events have their ids
+    reversed (OpenMP, one outcome per job) — same weights as `pipeline_ndl` -/
+example :
+    ∃ w : LW ℤ, ndlModelWith (fun e => ⟨e.cues.reverse, e.outcomes.reverse⟩) Generated.pyMagic Generated.pyVersion
+        ⟨.error, .openmp, 1, 2⟩ (1 : ℤ) 2 3 5 ["b#", "a#", "#a"] ["", "a"]
+        (Pipeline.pipeS (.keep ["#a".toList, "a#".toList, "b#".toList]) (.remove ["b".toList])
+          [⟨["a#".toList, "#a".toList], ["a".toList]⟩, ⟨["b#".toList, "#b".toList], ["b".toList]⟩])
+        = .ok (w, (Pipeline.pipeS (.keep ["#a".toList, "a#".toList, "b#".toList]) (.remove ["b".toList])
+          [⟨["a#".toList, "#a".toList], ["a".toList]⟩, ⟨["b#".toList, "#b".toList], ["b".toList]⟩]).length) ∧
+      w.cues = ["b#", "a#", "#a"] ∧ w.outcomes = ["", "a"] ∧
+      ∀ o c : String, w.get o c
+        = rwLearn (fun _ => (1 : ℤ)) 2 3 5 (fun _ _ => (0 : ℤ)) (exampleParsed.map Pipeline.toS) o c := by
+  have hS : Pipeline.pipeS (.keep ["#a".toList, "a#".toList, "b#".toList]) (.remove ["b".toList]) exampleCreated
+      = exampleParsed.map Pipeline.toS := by rw [Pipeline.pipeS_eq, exampleCreated_parsed]
+  obtain ⟨w, hw, lc, lo, _, hget, _⟩ :=
+    pipeline_ndl_order_irrelevant (R := ℤ) (fun e => ⟨e.cues.reverse, e.outcomes.reverse⟩)
+      (fun e => ⟨List.reverse_perm _, List.reverse_perm _⟩) ⟨.error, .openmp, 1, 2⟩ 1 2 3 5
+      (.keep ["#a".toList, "a#".toList, "b#".toList]) (.remove ["b".toList])
+      exampleCreated exampleParsed
+      [⟨["a#".toList, "#a".toList], ["a".toList]⟩, ⟨["b#".toList, "#b".toList], ["b".toList]⟩]
+      (List.Forall₂.cons ⟨by decide, by decide⟩ (List.Forall₂.cons ⟨by decide, by decide⟩ List.Forall₂.nil))
+      (by rw [exampleCreated_parsed]; decide +kernel) (by rw [hS]; exact exampleParsed_fits)
+      (by rw [hS]; decide +kernel) ["b#", "a#", "#a"] ["", "a"] (by rw [hS]; decide +kernel)
+      (by rw [hS]; decide +kernel)
+  exact ⟨w, hw, lc, lo, hget⟩
 
 /-- **(C) … → `dict_ndl` → `activation()`, dict path.**  Under the hypotheses
     of `writer_filter_reader_learner`, on the weight dict `W` the learner
